@@ -1685,6 +1685,11 @@ class InterpExpr:
                 self.partial(False, 'TypeError', line)
             return self.str_concat(a, b)
         if isinstance(op, ast.Mod) and self.family(a) == 'str':
+            # 'literal template' % scalar(s): a deterministic (uninterpreted) function of the values, like f-strings
+            if isinstance(a, str):
+                r = self.template_str('pct:' + a, list(b) if isinstance(b, tuple) else [b])
+                if r is not None:
+                    return r
             return self.opaque_str()
         if isinstance(op, (ast.BitOr, ast.BitAnd)) and (self.family(a) == 'bool' and self.family(b) == 'bool'):
             ta, tb = self.as_bool(self.truthy(a)), self.as_bool(self.truthy(b))
